@@ -469,6 +469,8 @@ def run(ck):
         rt.guard(ck, oracle_contention, ck, 4, 12 if q else 60)
         rt.guard(ck, oracle_pyramid_inputs, ck)
         rt.guard(ck, oracle_layout_arguments, ck)
+        from .. import adoption
+        rt.guard(ck, adoption.run, ck, ('load', 'f32-double-load'))
         rt.guard(ck, oracle_dtype_history, ck)
         if ((ck.lean is not None and not ck.lean.ok) or st.mismatches) and not ck.failures:
             for nt in (1, 2, 8):
